@@ -565,7 +565,7 @@ static int d_set_main_sched(void **h)
 {
     ABT_xstream self;
     ABT_OK(ABT_xstream_self(&self));
-    int rc = ABT_xstream_set_main_sched_basic(self, ABT_SCHED_BASIC, 1, NULL);
+    int rc = ABT_xstream_set_main_sched_basic(self, ABT_SCHED_BASIC, 0, NULL);
     *h = rc == ABT_SUCCESS ? (void *)self : POISON;
     return rc;
 }
